@@ -139,10 +139,15 @@ func gen(t *rapid.T) Case {
 	}
 	nops := rapid.IntRange(1, 24).Draw(t, "nops")
 	for i := 0; i < nops; i++ {
-		k := rapid.IntRange(0, 11).Draw(t, "opk")
+		k := rapid.IntRange(0, 12).Draw(t, "opk")
 		switch {
 		case k == 0:
 			c.Ops = append(c.Ops, Op{K: "report"})
+		case k == 12:
+			// a stopwatch started from the histogram and stopped: an elapsed DURATION, which a value
+			// histogram must ignore like any other duration (on duration histograms the op is skipped:
+			// the elapsed time is not the harness's to choose; C10 judges those)
+			c.Ops = append(c.Ops, Op{K: "sw"})
 		case k <= 5:
 			var v float64
 			sk := rapid.IntRange(0, 5).Draw(t, "vk")
@@ -310,6 +315,7 @@ func run(c Case) (pbt.Outcome, error) {
 	wantD := map[time.Duration]int64{}
 	var finite, nans int64
 	boundary := false
+	stopwatches := false
 	for _, op := range c.Ops {
 		switch op.K {
 		case "v":
@@ -347,6 +353,11 @@ func run(c Case) (pbt.Outcome, error) {
 				if d == b || d == b+1 || d == b-1 {
 					boundary = true
 				}
+			}
+		case "sw":
+			if !isDur {
+				h.Start().Stop()
+				stopwatches = true
 			}
 		case "report":
 			if c.Mode != "test" {
@@ -537,6 +548,9 @@ func run(c Case) (pbt.Outcome, error) {
 	}
 	if prefixed {
 		out.Classes = append(out.Classes, "prefix-of-shared-table")
+	}
+	if stopwatches {
+		out.Classes = append(out.Classes, "stopwatch-on-value-histogram")
 	}
 	if altSingle {
 		out.Classes = append(out.Classes, "empty-spec")
